@@ -139,6 +139,21 @@ func (fc *fileCtx) raceInstrument() {
 
 			if id, ok := v.Fun.(*ast.Ident); ok && len(v.Args) >= 1 {
 				if _, isBuiltin := info.Uses[id].(*types.Builtin); isBuiltin {
+					if id.Name == "append" && !inside(id) && len(v.Args) >= 2 {
+						if _, isSlice := typeOf(v.Args[0]).(*types.Slice); isSlice {
+							if v.Ellipsis.IsValid() {
+								if _, srcSlice := typeOf(v.Args[1]).(*types.Slice); srcSlice {
+									fc.replace(id.Pos(), v.Lparen+1, "zzverifsim.AppendSlice("+lbl(v, "append")+", ")
+									fc.replace(v.Ellipsis, v.Ellipsis+3, "")
+									stats["race.append"]++
+								}
+							} else {
+								fc.replace(id.Pos(), v.Lparen+1, "zzverifsim.Append("+lbl(v, "append")+", ")
+								stats["race.append"]++
+							}
+						}
+					}
+
 					if _, isMap := typeOf(v.Args[0]).(*types.Map); isMap && !inside(v.Args[0]) {
 						switch id.Name {
 						case "delete":
@@ -183,6 +198,20 @@ func (fc *fileCtx) raceInstrument() {
 			fc.wrap(v, 0, "(*zzverifsim."+fn+"(&", ", "+lbl(v, v.Sel.Name)+"))")
 			stats["race.field"+fn]++
 		case *ast.IndexExpr:
+			if _, isSlice := typeOf(v.X).(*types.Slice); isSlice && !inside(v) && !addrOf[v] {
+				if tv, ok := info.Types[v]; ok && tv.IsValue() {
+					fn := "R"
+					if writes[v] {
+						fn = "W"
+					}
+
+					fc.wrap(v, 0, "(*zzverifsim."+fn+"(&", ", "+lbl(v, "slice-elem")+"))")
+					stats["race.slice"+fn]++
+				}
+
+				return true
+			}
+
 			if _, isMap := typeOf(v.X).(*types.Map); !isMap || inside(v.X) {
 				return true
 			}
